@@ -90,8 +90,13 @@ impl Log {
         o.insert("e".into(), json!(e));
         o.insert("t0".into(), json!(st.1));
         o.insert("t1".into(), json!(t1));
+        // a Timeout / None result is not progress: a reader polling for a byte that never comes must
+        // still trip the watchdog
+        let res = extra["res"].as_str().unwrap_or("");
+        if res != "timeout" && res != "none" {
+            PROGRESS.fetch_add(1, Ordering::Relaxed);
+        }
         self.evs.push(extra);
-        PROGRESS.fetch_add(1, Ordering::Relaxed);
     }
 }
 fn res_of<T>(r: &Result<tiny_std::Result<T>, String>) -> (&'static str, i64) {
